@@ -25,8 +25,9 @@ def run_driver(repo_dir, out_dir, crates="complgen", target=TARGET, extra_env=No
     os.makedirs(out_dir, exist_ok=True)
     os.makedirs(target, exist_ok=True)
     # cargo's freshness cache would skip the wrapper: forget the members' fingerprints
-    for fp in glob.glob(os.path.join(target, "debug", ".fingerprint", "complgen-*")):
-        shutil.rmtree(fp, ignore_errors=True)
+    for cr in crates.split(","):
+        for fp in glob.glob(os.path.join(target, "debug", ".fingerprint", cr + "-*")):
+            shutil.rmtree(fp, ignore_errors=True)
     nonce = f"{os.getpid()}-{time.time_ns()}"
     env = dict(os.environ)
     env.update(
